@@ -119,6 +119,18 @@ def roundtrip(o, fields, name):
     if str(back) != text:
         o.viol("reprint|differs", "str(parse(%r)) = %r" % (text, str(back)))
         return False
+    # the parsed identifier is the caller's own object: editing it must not change what the same text parses to afterwards
+    back.version = ((back.version or 0) + 1) % 100
+    back.name = "edited by the caller"
+    try:
+        again = ConfigId.create_from_str(text)
+    except Exception as e:
+        o.viol("parse|second-parse-raises|%s" % type(e).__name__, "the second create_from_str(%r) raised %r" % (text, e))
+        return False
+    if again is back or ident_of(again) != exp_ident:
+        o.cls = "parse-result-shared"
+        o.viol("parse|result-shared", "create_from_str(%r) after the first result was edited returns %r (the parser hands out a shared object)" % (text, ident_of(again)))
+        return False
     return True
 
 
